@@ -6,6 +6,7 @@ func init() {
 		Units: []Unit{{ModDir: "learn", PkgDir: "pkg/learn", PkgPath: "evylang.dev/evy/learn/pkg/learn", PkgName: "learn", Files: []string{"learn/c20.go"}, Harnesses: []Harness{
 			{Fn: "ZZC20Envelope", Quick: p("L", 6), Thorough: p("L", 12), Expect: []string{"roundtrip", "otherkey", "corrupt-accepted", "corrupt-rejected", "truncated", "garbage", "spliced", "stub:rsa.DecryptOAEP", "stub:gcm.Open", "witness:end"}},
 			{Fn: "ZZC20Seal", Expect: []string{"unsealed", "wrongkey", "getanswer", "witness:end"}},
+			{Fn: "ZZC20Text", Expect: []string{"text-ok", "text-rejects", "witness:end"}},
 			{Fn: "ZZC20Verify", Quick: p("N", 3), Thorough: p("N", 5), Expect: []string{"verify-ok", "verify-rejects", "witness:end"}},
 		}}},
 		Assumptions: []string{
